@@ -22,6 +22,7 @@ type GenCfg struct {
 	MinKeys        int
 	MaxKeys        int
 	BigValues      bool
+	MaxFan         int
 	FixSpec        func(s *dbx.Spec)
 }
 
@@ -114,6 +115,9 @@ func GenProgram(t *rapid.T, c GenCfg) Program {
 	}
 	p.Keys = genKeys(t, minK, maxK)
 	p.Fan = rapid.SampledFrom([]int{1, 1, 2, 4, 8}).Draw(t, "fan")
+	if c.MaxFan > 0 && p.Fan > c.MaxFan {
+		p.Fan = c.MaxFan
+	}
 	nk := len(p.Keys) * p.Fan
 	var kinds []string
 	for k, w := range c.Weights {
@@ -123,8 +127,33 @@ func GenProgram(t *rapid.T, c GenCfg) Program {
 	}
 	sort.Strings(kinds)
 	n := rapid.IntRange(c.MinOps, c.MaxOps).Draw(t, "nops")
+	// open[s]: 0 = no transaction in slot s, 1 = read-only, 2 = read-write (generation-time
+	// bookkeeping only, so that most operations address a live transaction; the interpreter
+	// tolerates any slot).
+	var open [4]int
+	pick := func(label string, want func(int) bool) int {
+		var cands []int
+		for s, st := range open {
+			if want(st) {
+				cands = append(cands, s)
+			}
+		}
+		if len(cands) == 0 || rapid.IntRange(0, 9).Draw(t, label+"any") == 0 {
+			return rapid.IntRange(0, 3).Draw(t, label)
+		}
+		return rapid.SampledFrom(cands).Draw(t, label)
+	}
+	isOpen := func(st int) bool { return st > 0 }
+	isRW := func(st int) bool { return st == 2 }
+	isFree := func(st int) bool { return st == 0 }
 	for i := 0; i < n; i++ {
 		op := Op{Kind: rapid.SampledFrom(kinds).Draw(t, "kind")}
+		switch op.Kind {
+		case "fill", "l0l0", "churn", "deepen":
+			open[3] = 0
+		case "reopen":
+			open = [4]int{}
+		}
 		switch op.Kind {
 		case "fill": // macro: several small transactions writing consecutive keys (enough data for several tables)
 			p.Ops = append(p.Ops, genFill(t, p.Spec, c, nk, rapid.IntRange(3, 24).Draw(t, "fill"), 0)...)
@@ -157,8 +186,58 @@ func GenProgram(t *rapid.T, c GenCfg) Program {
 				p.Ops = append(p.Ops, Op{Kind: "flush"}, Op{Kind: "compact", A: 0, B: 1}, Op{Kind: "compact", A: rapid.IntRange(1, 6).Draw(t, "lvl"), B: 1, T: 2})
 			}
 			continue
+		case "rwscan": // macro: a read-write transaction that writes, then reads its own writes back
+			slot := pick("slot", isFree)
+			open[slot] = 0
+			p.Ops = append(p.Ops, Op{Kind: "begin", T: slot, RW: true, Ts: uint64(rapid.IntRange(1, 60).Draw(t, "rts"))})
+			base := rapid.IntRange(0, nk-1).Draw(t, "base")
+			for j, m := 0, rapid.IntRange(1, 5).Draw(t, "nwrites"); j < m; j++ {
+				w := genWrite(t, p.Spec, c, slot, nk)
+				w.Key = base + rapid.IntRange(0, 3).Draw(t, "dk")
+				p.Ops = append(p.Ops, w)
+				if rapid.IntRange(0, 2).Draw(t, "readnow") == 0 {
+					p.Ops = append(p.Ops, Op{Kind: "get", T: slot, Key: base + rapid.IntRange(0, 3).Draw(t, "gk")})
+				}
+			}
+			for j, m := 0, rapid.IntRange(1, 3).Draw(t, "niters"); j < m; j++ {
+				p.Ops = append(p.Ops, Op{Kind: "iter", T: slot, It: genIterSpec(t, nk, false)})
+			}
+			if rapid.IntRange(0, 3).Draw(t, "docommit") > 0 {
+				p.Ops = append(p.Ops, Op{Kind: "commit", T: slot, Ts: uint64(rapid.IntRange(1, 60).Draw(t, "cts"))})
+			} else {
+				p.Ops = append(p.Ops, Op{Kind: "discard", T: slot})
+			}
+			continue
+		case "race": // macro: two overlapping read-write transactions touching nearby keys
+			a, b := 0, 1
+			if rapid.Bool().Draw(t, "swap") {
+				a, b = 2, 3
+			}
+			open[a], open[b] = 0, 0
+			k := rapid.IntRange(0, nk-1).Draw(t, "k")
+			rd := Op{Kind: "get", T: a, Key: k}
+			switch rapid.IntRange(0, 2).Draw(t, "readkind") {
+			case 1:
+				rd = Op{Kind: "iter", T: a, It: &IterSpec{Prefix: -1, Seek: k, Reverse: rapid.Bool().Draw(t, "rrev")}}
+			case 2:
+				rd = Op{Kind: "iter", T: a, It: genIterSpec(t, nk, false)}
+			}
+			p.Ops = append(p.Ops,
+				Op{Kind: "begin", T: a, RW: true, Ts: uint64(rapid.IntRange(1, 60).Draw(t, "rts"))},
+				Op{Kind: "begin", T: b, RW: true, Ts: uint64(rapid.IntRange(1, 60).Draw(t, "rts"))},
+				rd,
+				Op{Kind: "set", T: b, Key: k + rapid.SampledFrom([]int{0, 0, 0, 1}).Draw(t, "dk"), VSize: 3},
+				Op{Kind: "set", T: a, Key: k + rapid.SampledFrom([]int{0, 1, 2}).Draw(t, "dk2"), VSize: 4})
+			first, second := b, a
+			if rapid.IntRange(0, 3).Draw(t, "order") == 0 {
+				first, second = a, b
+			}
+			p.Ops = append(p.Ops, Op{Kind: "commit", T: first, Ts: uint64(rapid.IntRange(1, 60).Draw(t, "cts"))},
+				Op{Kind: "commit", T: second, Ts: uint64(rapid.IntRange(1, 60).Draw(t, "cts"))})
+			continue
 		case "txn": // macro: a small complete transaction (begin, writes, commit) in one slot
-			slot := rapid.IntRange(0, 3).Draw(t, "slot")
+			slot := pick("slot", isFree)
+			open[slot] = 0
 			p.Ops = append(p.Ops, Op{Kind: "begin", T: slot, RW: true, Ts: uint64(rapid.IntRange(1, 60).Draw(t, "rts"))})
 			m := rapid.IntRange(1, 4).Draw(t, "nwrites")
 			for j := 0; j < m; j++ {
@@ -167,28 +246,36 @@ func GenProgram(t *rapid.T, c GenCfg) Program {
 			p.Ops = append(p.Ops, Op{Kind: "commit", T: slot, Ts: uint64(rapid.IntRange(1, 60).Draw(t, "cts"))})
 			continue
 		case "begin":
-			op.T = rapid.IntRange(0, 3).Draw(t, "slot")
+			op.T = pick("slot", isFree)
 			op.RW = rapid.IntRange(0, 2).Draw(t, "rw") > 0
 			op.Ts = uint64(rapid.IntRange(1, 60).Draw(t, "rts"))
+			open[op.T] = 1
+			if op.RW {
+				open[op.T] = 2
+			}
 		case "set", "del":
-			op = genWrite(t, p.Spec, c, rapid.IntRange(0, 3).Draw(t, "slot"), nk)
+			op = genWrite(t, p.Spec, c, pick("slot", isRW), nk)
 			if op.Kind == "set" && rapid.IntRange(0, 5).Draw(t, "asdel") == 0 {
 				op.Kind = "del"
 			}
 		case "get", "gethold":
-			op.T = rapid.IntRange(0, 3).Draw(t, "slot")
+			op.T = pick("slot", isOpen)
 			op.Key = rapid.IntRange(0, nk-1).Draw(t, "key")
 			if op.Kind == "gethold" && !c.Hold {
 				op.Kind = "get"
 			}
 		case "iter":
-			op.T = rapid.IntRange(0, 3).Draw(t, "slot")
+			op.T = pick("slot", isOpen)
 			op.It = genIterSpec(t, nk, c.Hold)
 		case "commit":
-			op.T = rapid.IntRange(0, 3).Draw(t, "slot")
+			op.T = pick("slot", isRW)
 			op.Ts = uint64(rapid.IntRange(1, 60).Draw(t, "cts"))
-		case "discard", "itemread", "iterdrain":
-			op.T = rapid.IntRange(0, 3).Draw(t, "slot")
+			open[op.T] = 0
+		case "discard":
+			op.T = pick("slot", isOpen)
+			open[op.T] = 0
+		case "itemread", "iterdrain":
+			op.T = pick("slot", isOpen)
 		case "compact":
 			op.A = rapid.IntRange(0, 6).Draw(t, "level")
 			if rapid.IntRange(0, 1).Draw(t, "l0") == 0 {
